@@ -16,3 +16,5 @@ INVARIANT QutipOK
 INVARIANT FrameOK
 INVARIANT RefuseOK
 INVARIANT KF_TracePhase
+INVARIANT ConstOK
+INVARIANT CastOK
